@@ -120,6 +120,8 @@ pub fn emit(kind: &str, v: serde_json::Value) {
 pub type MemPersister = KVVPersister<MemoryKVVStore, JsonFormat>;
 
 pub struct World {
+    /// validators are OnchainValidator (what the daemon runs) around the simple one
+    pub onchain: bool,
     pub persister: Arc<MemPersister>,
     pub clock: Arc<ManualClock>,
     pub policy: SimplePolicy,
@@ -145,7 +147,7 @@ impl World {
             use_checkpoints: false,
             allow_deep_reorgs: true,
         };
-        World { persister, clock, policy, seed, config }
+        World { onchain: false, persister, clock, policy, seed, config }
     }
 
     pub fn default_policy() -> SimplePolicy {
@@ -153,7 +155,12 @@ impl World {
     }
 
     pub fn services(&self) -> NodeServices {
-        let validator_factory = Arc::new(SimpleValidatorFactory::new_with_policy(self.policy.clone()));
+        let simple = SimpleValidatorFactory::new_with_policy(self.policy.clone());
+        let validator_factory: Arc<dyn lightning_signer::policy::validator::ValidatorFactory> = if self.onchain {
+            Arc::new(lightning_signer::policy::onchain_validator::OnchainValidatorFactory::new_with_simple_factory(simple))
+        } else {
+            Arc::new(simple)
+        };
         let starting_time_factory: Arc<dyn StartingTimeFactory> =
             make_genesis_starting_time_factory(self.config.network);
         let persister: Arc<dyn Persist> = self.persister.clone();
